@@ -218,13 +218,13 @@ def run_impl(sub, outdir, seed, n, replay=None, mode=None, timeout=None, extra=N
 def eval_cases(outdir, timeout=1500):
     """coqc evaluates the model on cases.v; returns the indices of disagreeing cases."""
     rc, out = sh("ulimit -v 16000000; timeout %d coqc -Q %s Zeno cases.v" % (timeout, COQ), cwd=outdir, timeout=timeout + 20)
-    m = re.search(r"M\s*=\s*(\[[^\]]*\])\s*:\s*list Z", out, flags=re.S)
+    m = re.search(r"M\s*=\s*(\[[^\]]*\])\s*:\s*list (?:Z|nat)", out, flags=re.S)
     if rc != 0 or not m:
         raise RuntimeError("coqc on cases.v failed: " + out[-3000:])
     body = m.group(1).strip()[1:-1].strip()
     if not body:
         return []
-    return [int(x.strip().strip("()")) for x in body.replace("%Z", "").split(";")]
+    return [int(x.strip().strip("()")) for x in body.replace("%Z", "").replace("%nat", "").split(";")]
 
 
 def read_cases(outdir):
